@@ -627,6 +627,35 @@ def desugar_then(body, bi, cb):
     return inline_once(nb, n_call, cb, closure_local=clo_local)
 
 
+BOOL_THEN_SOME = ('core::bool::<impl bool>::then_some', 'std::bool::<impl bool>::then_some')
+
+
+def desugar_then_some(body, bi):
+    """c.then_some(v)  ==  if c { Some(v) } else { None }   (v is already evaluated)"""
+    j = copy.deepcopy(body.j)
+    t = j['blocks'][bi]['term']
+    span = j['blocks'][bi]['tspan']
+    target, dest = t['target'], t['dest']
+    a_c, a_v = t['args'][0], t['args'][1]
+    cp = a_c.get('move') or a_c.get('copy')
+    if cp is not None and not cp['p']:
+        c = cp['l']
+    else:
+        j['locals'].append({'ty': 'bool', 'name': None, 'mut': True})
+        c = len(j['locals']) - 1
+        j['blocks'][bi]['stmts'].append({'k': 'assign', 'place': {'l': c, 'p': []}, 'rv': {'k': 'use', 'op': a_c}, 'span': span})
+    n0 = len(j['blocks'])
+    OPT = 'std::option::Option'
+    j['blocks'][bi]['term'] = {'k': 'switch', 'discr': {'move': {'l': c, 'p': []}}, 'targets': [['0', n0 + 1]], 'otherwise': n0}
+    j['blocks'].append({'stmts': [{'k': 'assign', 'place': dest, 'rv': {'k': 'agg', 'agg': 'adt', 'adt': OPT, 'variant': 1, 'variant_name': 'Some',
+                                                                         'field_names': ['0'], 'fields': [a_v]}, 'span': span}],
+                        'term': {'k': 'goto', 'target': target}, 'tspan': span, 'cleanup': False})
+    j['blocks'].append({'stmts': [{'k': 'assign', 'place': dest, 'rv': {'k': 'agg', 'agg': 'adt', 'adt': OPT, 'variant': 0, 'variant_name': 'None',
+                                                                         'field_names': [], 'fields': []}, 'span': span}],
+                        'term': {'k': 'goto', 'target': target}, 'tspan': span, 'cleanup': False})
+    return Body(j, body.crate)
+
+
 MAP_ORS = {'std::result::Result::<T, E>::map_or': ('std::result::Result', 'Ok', 0, 'Err', 1),
            'std::option::Option::<T>::map_or': ('std::option::Option', 'Some', 1, 'None', 0)}
 
@@ -732,6 +761,11 @@ def desugar_adaptors(body, crate, max_rounds=16):
                     did = True
                     break
                 continue
+            if t['func'].get('path') in BOOL_THEN_SOME and len(t['args']) == 2 and t['target'] is not None:
+                cur = desugar_then_some(cur, bi)
+                used.add('then_some@%s' % body.path)
+                did = True
+                break
             if t['func'].get('path') in BOOL_THEN and len(t['args']) == 2 and t['target'] is not None:
                 cp = t['args'][1].get('move') or t['args'][1].get('copy')
                 path = _closure_of(cur, cp['l']) if cp is not None and not cp['p'] else None
@@ -918,14 +952,56 @@ def find_literal_merge(fn, skip=frozenset()):
     return None
 
 
+def desugar_from_residual(body, bi):
+    """`return FromResidual::from_residual(r)` with r: Result<Infallible, E> is `return Err(From::from(e))` (None for Option): written
+    as the literal it is, so that the `?` of a caller (after inlining) sees an Err literal and not an opaque call"""
+    t = body.blocks[bi]['term']
+    if len(t['args']) != 1 or t['target'] is None:
+        return None
+    ap = t['args'][0].get('move') or t['args'][0].get('copy')
+    if ap is None or ap['p']:
+        return None
+    aty = body.local_ty(ap['l'])
+    dty = body.local_ty(t['dest']['l']) if not t['dest']['p'] else ''
+    j = copy.deepcopy(body.j)
+    span = j['blocks'][bi]['tspan']
+    if aty.startswith('std::result::Result<std::convert::Infallible') and dty.startswith('std::result::Result<'):
+        j['locals'].append({'ty': 'unknown', 'name': None, 'mut': True})
+        e = len(j['locals']) - 1
+        j['locals'].append({'ty': 'unknown', 'name': None, 'mut': True})
+        e2 = len(j['locals']) - 1
+        j['blocks'][bi]['stmts'].append({'k': 'assign', 'place': {'l': e, 'p': []}, 'rv': {'k': 'use', 'op': {'move': {
+            'l': ap['l'], 'p': [{'down': 1, 'name': 'Err'}, {'f': 0, 'name': '0', 'ty': 'unknown'}]}}}, 'span': span})
+        nblk = {'stmts': [{'k': 'assign', 'place': t['dest'], 'rv': {'k': 'agg', 'agg': 'adt', 'adt': 'std::result::Result', 'variant': 1, 'variant_name': 'Err',
+                                                                    'field_names': ['0'], 'fields': [{'move': {'l': e2, 'p': []}}]}, 'span': span}],
+                'term': {'k': 'goto', 'target': t['target']}, 'tspan': span, 'cleanup': False}
+        j['blocks'].append(nblk)
+        j['blocks'][bi]['term'] = {'k': 'call', 'func': {'path': 'std::convert::From::from', 'full': 'std::convert::From::from', 'name': 'from', 'gargs': []},
+                                   'args': [{'move': {'l': e, 'p': []}}], 'dest': {'l': e2, 'p': []}, 'target': len(j['blocks']) - 1, 'unwind': None}
+        return Body(j, body.crate)
+    if aty.startswith('std::option::Option<std::convert::Infallible') and dty.startswith('std::option::Option<'):
+        j['blocks'][bi]['stmts'].append({'k': 'assign', 'place': t['dest'], 'rv': {'k': 'agg', 'agg': 'adt', 'adt': 'std::option::Option', 'variant': 0,
+                                                                                 'variant_name': 'None', 'field_names': [], 'fields': []}, 'span': span})
+        j['blocks'][bi]['term'] = {'k': 'goto', 'target': t['target']}
+        return Body(j, body.crate)
+    return None
+
+
 def desugar_try_branches(body):
-    """every `Try::branch(x)` on a Result / Option written out as a match (see desugar_try_branch)"""
+    """every `Try::branch(x)` on a Result / Option written out as a match (see desugar_try_branch), every from_residual as
+    the Err / None literal it returns"""
     cur = body
-    for _ in range(32):
+    for _ in range(64):
         did = False
         for bi, t in list(cur.calls()):
             if t['func'].get('path') == TRY_BRANCH and len(t['args']) == 1:
                 nb = desugar_try_branch(cur, bi)
+                if nb is not None:
+                    cur = nb
+                    did = True
+                    break
+            if t['func'].get('path') == 'std::ops::FromResidual::from_residual':
+                nb = desugar_from_residual(cur, bi)
                 if nb is not None:
                     cur = nb
                     did = True
@@ -935,7 +1011,7 @@ def desugar_try_branches(body):
     return cur
 
 
-def split_literal_results(body):
+def split_literal_results(body, max_splits=3):
     """for functions that are not planner entry points: when a Result / Option literal (the `return Err(X)` of an inlined
     helper, a `break Err(..)`) flows into a `?`, write the `?` out and duplicate the tail per literal so that each copy
     takes the arm its literal decides; None when the function has no such merge"""
@@ -943,7 +1019,7 @@ def split_literal_results(body):
     nb = desugar_try_branches(body)
     if find_literal_merge(Fn(nb)) is None:
         return None
-    out = split_decisions(nb, max_splits=3, literal_only=True)
+    out = split_decisions(nb, max_splits=max_splits, literal_only=True)
     return out if out is not nb else None
 
 
@@ -1127,6 +1203,15 @@ def fold_constant_switches(body, known=(), rounds=6):
                 val = n[1]
             elif n[0] == 'discr' and len(n[1]) == 1:
                 a = next(iter(n[1]))
+                # the literal must be of the type whose discriminant is read (terms look through ok_or / map_err, which turn an
+                # Option literal into a Result: None = 0 is not Ok = 0)
+                dty = None
+                for st_ in blk['stmts']:
+                    if st_['k'] == 'assign' and st_['rv']['k'] == 'discr':
+                        dpl = st_['rv']['place']
+                        dty = cur.local_ty(dpl['l']) if not dpl['p'] else None
+                if a[0] == 'agg' and (dty is None or not dty.startswith(a[1].replace('core::', 'std::'))):
+                    a = ('none',)
                 if a[0] == 'agg' and a[1] in ('std::result::Result', 'std::option::Option', 'core::result::Result', 'core::option::Option',
                                               'std::ops::ControlFlow', 'core::ops::ControlFlow') and \
                         a[2] in ('Ok', 'Err', 'None', 'Some', 'Continue', 'Break'):
